@@ -62,6 +62,7 @@ type StepOut struct {
 	Panic string `json:"panic,omitempty"`
 	Inval bool   `json:"-"` // the harness could not even address the call (e.g. path not resolvable)
 	Seen  string `json:"-"` // inside a transaction body: the whole value as the body reads it after this call
+	Leak  string `json:"-"` // a value handed out by a read was changed by the reader and the replica's state changed with it
 }
 
 // World is the explicit state of an E1 execution.
@@ -620,6 +621,28 @@ func (w *World) call(r *Replica, t callTarget, a pt.Action) (out StepOut) {
 		}
 	}()
 	switch a.Op {
+	case "getmut":
+		// the application reads a value and changes what it was given (adds a member, overwrites an element): that is
+		// its own copy, the replica's state stays what the operations made it
+		before := jsonStr(r.typed().ToJSON())
+		var v interface{}
+		if t.mp != nil {
+			v = t.mp.Get(a.K)
+		} else if t.li != nil {
+			v, _ = t.li.Get(a.P)
+		}
+		switch x := v.(type) {
+		case map[string]interface{}:
+			x["zz"] = "changed-by-the-reader"
+		case []interface{}:
+			if len(x) > 0 {
+				x[0] = "changed-by-the-reader"
+			}
+		}
+		out.Ret = "-"
+		if after := jsonStr(r.typed().ToJSON()); after != before {
+			out.Leak = fmt.Sprintf("before the reader changed the value it got: %s, after: %s", before, after)
+		}
 	case "inc":
 		v, e := t.cnt.IncreaseBy(int32(a.P))
 		out.Ret = fmt.Sprint(v)
